@@ -118,6 +118,13 @@ func (k *kb) secret(v, kind string) {
 	if len(v) >= 6 {
 		k.Secrets[v] = kind
 	}
+	// a base64 token leaks just as well without its padding (e.g. when a URL with the
+	// padding percent-escaped is logged): register the unpadded core too
+	if strings.HasSuffix(kind, "-token") {
+		if core := strings.TrimRight(v, "="); core != v && len(core) >= 16 {
+			k.Secrets[core] = kind
+		}
+	}
 }
 
 // ---- machine -------------------------------------------------------------------------------
